@@ -3,7 +3,7 @@
    tracks every write the loop makes to LastValidatorPower. *)
 From stdpp Require Import gmap.
 Require Import Model.Base Model.Ante Model.Validate Model.Current Model.State Model.Staking Model.Slashing Model.Poa Model.App.
-Require Import proofs.Inv proofs.InvIdx proofs.L1Effects proofs.InvPres proofs.InvMsgs proofs.InvHistory.
+Require Import proofs.EvBasic proofs.Inv proofs.InvIdx proofs.L1Effects proofs.InvPres proofs.InvMsgs proofs.InvHistory.
 Open Scope Z_scope.
 
 (* CometBFT's view and the chain's view agree *)
@@ -345,10 +345,24 @@ Proof.
   destruct (handle_signature c k p _) as [c1|] eqn:E; [|discriminate]. intros H. eapply members_stable_trans; [eapply handle_signature_MS; eauto|apply IH; exact H].
 Qed.
 
-Lemma begin_block_MS c votes absent c' : begin_block c votes absent = inl c' -> MS c c'.
+Lemma handle_evidence_MS c e c' : handle_evidence c e = Some c' -> MS c c'.
 Proof.
-  unfold begin_block. destruct (_ && _); [discriminate|]. destruct (handle_votes votes absent c) as [c1|] eqn:E; [|discriminate]. intros [= <-].
-  apply handle_votes_MS in E. unfold poa_begin_block. destruct (1 <? height c1); exact E.
+  intros H. apply handle_evidence_cases in H as [->|(id & v & i & c1 & s2 & _ & _ & _ & _ & _ & _ & Es & Hj & ->)]; [apply members_stable_refl|].
+  cbn. destruct Hj as [[_ ->]|[_ Ej]]; [eapply slash_MS; eauto|]. eapply members_stable_trans; [eapply slash_MS; eauto|eapply jail_MS; eauto].
+Qed.
+
+Lemma handle_evidences_MS evs c c' : handle_evidences evs c = Some c' -> MS c c'.
+Proof.
+  apply (handle_evidences_rel (fun a b => MS a b)); [intros; apply members_stable_refl|intros; eapply members_stable_trans; eauto|].
+  intros; eapply handle_evidence_MS; eauto.
+Qed.
+
+Lemma begin_block_MS c votes absent evs c' : begin_block c votes absent evs = inl c' -> MS c c'.
+Proof.
+  unfold begin_block. destruct (_ && _); [discriminate|]. destruct (handle_votes votes absent c) as [c1|] eqn:E; [|discriminate].
+  destruct (handle_evidences evs c1) as [c2|] eqn:E2; [|discriminate]. intros [= <-].
+  apply handle_votes_MS in E. apply handle_evidences_MS in E2. unfold poa_begin_block.
+  destruct (1 <? height c2); eapply members_stable_trans; eauto.
 Qed.
 
 Lemma update_bonded_pool_MS c c' : update_bonded_pool c = MOk c' -> MS c c'.
@@ -525,8 +539,8 @@ Proof.
   specialize (Hrel eq_refl).
   set (c0 := with_clock (w_chain w) (height (w_chain w) + 1) (now (w_chain w) + b_dt b)).
   assert (H0 : CI c0) by (apply CI_clock; exact HCI).
-  destruct (begin_block c0 _ (b_absent b)) as [c1|e] eqn:Eb; [|split; [exact H0|discriminate]].
-  pose proof (begin_block_CI _ _ _ _ H0 Eb) as H1. pose proof (begin_block_MS _ _ _ _ Eb) as M1.
+  destruct (begin_block c0 _ (b_absent b) (b_evidence b)) as [c1|e] eqn:Eb; [|split; [exact H0|discriminate]].
+  pose proof (begin_block_CI _ _ _ _ _ H0 Eb) as H1. pose proof (begin_block_MS _ _ _ _ _ Eb) as M1.
   pose proof (deliver_txs_CI (b_txs b) c1 H1) as H2. pose proof (deliver_txs_MS (b_txs b) c1 H1) as M2.
   destruct (deliver_txs c1 (b_txs b)) as [c2 outs]. cbn in H2, M2.
   assert (Hrel2 : comet_rel (stk c2) (c_next (w_comet w))).
@@ -646,8 +660,8 @@ Proof.
   intros [HCI Hrel] Hh. specialize (Hrel Hh). unfold run_block. rewrite Hh.
   set (c0 := with_clock (w_chain w) (height (w_chain w) + 1) (now (w_chain w) + b_dt b)).
   assert (H0 : CI c0) by (apply CI_clock; exact HCI).
-  destruct (begin_block c0 _ (b_absent b)) as [c1|e] eqn:Eb; [|discriminate].
-  pose proof (begin_block_CI _ _ _ _ H0 Eb) as H1. pose proof (begin_block_MS _ _ _ _ Eb) as M1.
+  destruct (begin_block c0 _ (b_absent b) (b_evidence b)) as [c1|e] eqn:Eb; [|discriminate].
+  pose proof (begin_block_CI _ _ _ _ _ H0 Eb) as H1. pose proof (begin_block_MS _ _ _ _ _ Eb) as M1.
   pose proof (deliver_txs_CI (b_txs b) c1 H1) as H2. pose proof (deliver_txs_MS (b_txs b) c1 H1) as M2.
   destruct (deliver_txs c1 (b_txs b)) as [c2 outs]. cbn in H2, M2.
   assert (Hrel2 : comet_rel (stk c2) (c_next (w_comet w))).
